@@ -145,6 +145,8 @@ void observe_doc(const json& req, Document& doc, json& out, bool returned_normal
         so.expr_types = true;
     if (wants(req, "nosymtypes"))
         so.sym_types = false;
+    if (wants(req, "typeexprsyms"))
+        so.type_expr_syms = true;
     if (wants(req, "dump"))
         out["dump"] = docdump(doc, so);
     if (wants(req, "positions"))
